@@ -14,6 +14,14 @@ class Oracle(BaseOracle):
         if q is None:
             return
         p = self.st.proc
+        if not hasattr(self, "_src_ok"):
+            from vf import wf
+
+            self._src_ok = not wf.validate(p._loopir_proc)
+        if not self._src_ok:
+            # successors of an ill-formed state (reached through a recorded C04 finding) cannot be judged
+            self.stat("source_already_illformed")
+            return
         is_eqv, exempt = oracles.reported_cfg_keys(p, q)
         if not is_eqv:
             self.stat("not_reported_equivalent")
